@@ -243,3 +243,17 @@ def small_context_exhaustive(k, rng=None, limit=None):
     if limit and len(out) > limit and rng is not None:
         out = [out[rng.below(len(out))] for _ in range(limit)]
     return out
+
+
+def escape_stream(rng, n):
+    """quoting escapes at every position of quoted literals, string expressions and %str text,
+    next to macro triggers, line feeds, multi-byte characters and at end of input"""
+    atoms = ["a", "''", "\"\"", "'", "\"", "%%", "%'", "%\"", "%(", "%)", "%", "&", "&&", "&x", "%m", "\n", "\u044b", " ", "(", ")", ",", "/", "/*c*/", "41", "4g", ","]
+    shells = [("'", "'"), ("'", "'n"), ("'", "'x"), ("'", "'dt"), ("'", "'d"), ("'", ""), ("\"", "\""), ("\"", "\"x"), ("\"", "\"n"), ("\"", ""),
+              ("%str(", ")"), ("%nrstr(", ")"), ("%str(", ""), ("%let a=%str(", ");"), ("x=\"", "\";"), ("%m(\"", "\")"), ("%put '", "';")]
+    out = []
+    for _ in range(n):
+        a, b = rng.choice(shells)
+        k = rng.below(5)
+        out.append(a + "".join(rng.choice(atoms) for _ in range(k)) + b)
+    return out
